@@ -287,6 +287,11 @@ def c10_programs(seed, tier):
     for bad in ("", "xmlfoo", "XMLa", "a b", "a.b", "ä", "a:b", "a<b"):
         one(f"ext_badname_{len(out)}", [X, Y, Z, rec(bad, "int", 0, 9, ns="ext")], exts=("ext",), namesok=False)
         one(f"ext_badns_{len(out)}", [X, Y, Z, rec("foo", "int", 0, 9, ns=bad)], namesok=False)
+    for bad in ("", "xmlfoo", "a b", "ä"):
+        one(f"ext_second_badname_{len(out)}", [X, Y, Z, rec("fine", "int", 0, 9, ns="ext"), rec(bad, "int", 0, 9, ns="ext")], exts=("ext",), namesok=False)
+        one(f"ext_third_badname_{len(out)}", [X, Y, Z, rec("a", "int", 0, 9, ns="ext"), rec("b", "single", ns="ext2"), rec(bad, "int", 0, 9, ns="ext")], exts=("ext", "ext2"), namesok=False)
+    one("ext_two_ok", [X, Y, Z, rec("a", "int", 0, 9, ns="ext"), rec("b", "double", ns="ext"), rec("c", "int", 0, 1, ns="ext2")], exts=("ext", "ext2"))
+    one("ext_second_unregistered", [X, Y, Z, rec("a", "int", 0, 9, ns="ext"), rec("b", "int", 0, 9, ns="nope")], exts=("ext",))
     one("ext_std_name", [X, Y, Z, rec("intensity", "int", 0, 9, ns="ext")], exts=("ext",))
     for bad in ("", "xmlns", "a b", "ä"):
         out.append(prog(f"regext_bad_{len(out)}", [new(), {"op": "ext", "ns": bad, "url": "http://x", "nameok": False}, FIN]))
@@ -311,6 +316,13 @@ def c10_programs(seed, tier):
             gp = default_point(pr)
             bp = list(gp); bp[-1] = v_int(val)
             one(f"range_phase{phase}_{val}", pr, pts=[gp, bp, gp])
+    # records with minimum = maximum (zero bits): type, arity and range rules apply to them as well
+    cp = [X, Y, Z, rec("rowIndex", "int", 3, 3), rec("intensity", "sint", 7, 7, 0.5, 0.0)]
+    gp = default_point(cp)
+    for i, wrongs in ((3, (v_sint(3), v_f32(3.0), v_f64(3.0), v_int(4), v_int(2), v_int(I64MIN))), (4, (v_int(7), v_f64(7.0), v_sint(8), v_sint(6)))):
+        for wi, wv in enumerate(wrongs):
+            bp = list(gp); bp[i] = wv
+            one(f"const_slot{i}_{wi}", cp, pts=[gp, bp, gp])
     sr = [X, Y, Z, rec("intensity", "sint", -100, 100, 0.5, 1.0)]
     for val in (-101, 101, 1 << 40):
         gp = default_point(sr); bp = list(gp); bp[-1] = v_sint(val)
